@@ -165,6 +165,24 @@ class Flt(Engine):
                 rblock(rng, n),
                 rng.choice(['exact', 'exact', 'all']))
             yield Case(f'rand{i}', [ops])
+        # 2b. block-size +-1: lz4 frame blocks (64 KiB / 256 KiB / 1 MiB / 4 MiB) ...
+        for b in ((4, 5, 6) if tier == 'quick' else (4, 5, 6, 7)):
+            bsz = 65536 << (2 * (b - 4))
+            for delta in ((1,) if b == 6 and tier == 'quick' else (-1, 0, 1)):
+                o = ['lz4:block-size=%d' % b] + ([rng.choice(['lz4:block-dependence', 'lz4:block-checksum', 'lz4:!stream-checksum'])] if rng.random() < .5 else [])
+                yield Case(f'lz4-block{b}', ['rt lz4 %s gen:%s:%d:%d %s -/1 %d %s' % (
+                    ';'.join(o), rng.choice(['rnd', 'text']), bsz + delta, rng.randrange(999), rng.choice(['all', 'c70001']),
+                    rng.choice([10240, 65536]), rng.choice(['exact', 'all']))])
+        # ... and the 64 KiB output buffer of the gzip write filter filled exactly when the stream ends
+        # (stored deflate: the compressed size is a known function of the input size)
+        import zlib
+        def gzsize(n):
+            z = zlib.compressobj(0, zlib.DEFLATED, -15)
+            return 10 + len(z.compress(bytes(n)) + z.flush())
+        for k in (1, 2):
+            n0 = next(n for n in range(65536 * k - 40 * k - 20, 65536 * k) if gzsize(n) >= 65536 * k)
+            for n in range(n0 - 2, n0 + 3):
+                yield Case('gzip-buffer-full', ['rt gzip gzip:compression-level=0 gen:zero:%d:0 %s 1/1 10240 exact' % (n, rng.choice(['all', 'c4097']))])
         # 3. trailing zero padding (default bytes_in_last_block with callbacks): tolerated by these readers
         for f in ['gzip', 'bzip2', 'xz', 'lzip', 'lzma', 'lz4', 'uuencode', 'b64encode']:
             pl, n = payload(rng, tier, big_ok=False)
